@@ -124,6 +124,13 @@ def expected(case):
 # judgement
 
 
+def picks_agree(answer):
+    """q(x,y) / q(x,r,y,s) of two calls over the same lists: both calls report the same pick (and rest)"""
+    inner = answer[answer.index("(") + 1:-1]
+    n = len(inner)
+    return n % 2 == 1 and inner[n // 2] == "," and inner[:n // 2] == inner[n // 2 + 1:]
+
+
 def judge(case):
     """-> dict(sym, detail, expected, observed, outclass)"""
     exp = expected(case)
@@ -157,9 +164,10 @@ def judge(case):
     support_e = set(k for k, v in exp.items() if v > 0)
     support_o = set(k for k, v in obs.items() if v > TOL)
     k = bad[0]
-    if len(case["calls"]) == 2 and related(*case["calls"]) == "same" and (support_o - support_e):
+    disagree = sorted(a for a in support_o - support_e if not picks_agree(a))
+    if len(case["calls"]) == 2 and related(*case["calls"]) == "same" and disagree:
         res["sym"] = "same-id-disagree"
-        k = sorted(support_o - support_e)[0]
+        k = disagree[0]
     elif support_e != support_o:
         res["sym"] = "wrong-answers"
         k = sorted(support_e ^ support_o)[0]
